@@ -60,7 +60,7 @@ def prebuild():
 
 def build_impl():
     srcs = [s for s in vlib.AGENT_SRCS + vlib.SOCKET_SRCS + vlib.STUN_SRCS + ["agent/agent-enum-types.c"]
-            if s not in ("agent/candidate.c", "agent/interfaces.c")]
+            if s not in ("agent/candidate.c", "agent/conncheck.c", "agent/interfaces.c")]
     objs, l = vlib.repo_objects(srcs)
     if not objs:
         return None, l
@@ -90,6 +90,9 @@ def gen_cases(rng, n):
             for tr in range(5):
                 for tty in range(3):
                     add("R %d %d %d %d" % (rel, nat, tr, tty), "rank")
+                    if nat == 0 and tty == 0 and tr < 4:
+                        for comp in (1, 2, rng.choice([3, 255, 256])):
+                            add("Y %d %d %d %d %d" % (rel, tr, rng.randrange(0, 6), rng.randrange(1, 6), comp), "check-priority-attr")
                     for ty in range(5):
                         comp = rng.choice([1, 2, 255, 256])
                         ipidx, nips = rng.randrange(0, 6), rng.randrange(1, 6)
@@ -163,6 +166,16 @@ def oracle(line, out):
     elif cmd in ("C", "D"):
         if o[1] != "F" and not (0 < int(o[1]) < 2 ** 31):
             return "candidate priority %s outside 1..2^31-1" % o[1]
+    elif cmd == "Y":
+        # RFC 8445 7.1.1 / 5.1.2: type preference of a peer-reflexive candidate of that transport (110 UDP, TCP per RFC 6544 halved/by direction),
+        # so the attribute must lie strictly between the server-reflexive and the host priority the same address would get
+        if o[1] == "F" or not (0 < int(o[1]) < 2 ** 31):
+            return "PRIORITY attribute %s outside 1..2^31-1" % o[1]
+        if (int(o[1]) & 0xff) != (256 - int(t[6])) & 0xff:
+            return "PRIORITY attribute %s does not encode component %s" % (o[1], t[6])
+        if o[1] != o[2]:
+            return ("PRIORITY attribute of a check sent from a transport-%s candidate is %s, but a peer-reflexive candidate learnt from that check "
+                    "(same transport, base, component) gets priority %s (RFC 8445 7.1.1)" % (t[3], o[1], o[2]))
     elif cmd == "X":
         a, b = int(t[2]), int(t[3])
         exp = -1 if a > b else (1 if a < b else 0)
